@@ -201,7 +201,7 @@ Definition sample_row {A : Type} (lm : list nat) (le : list A) (tri : nat -> A) 
    loops above, the caller gets tri_rows; a return statement with another expression hands the caller that other
    matrix `alt` whenever its guard `g` holds (both arbitrary: the theorem quantifies over them) *)
 Definition strs_eqb (a b : list string) : bool :=
-  (Nat.eqb (length a) (length b)) && forallb (fun p => String.eqb (fst p) (snd p)) (combine a b).
+  (Nat.eqb (List.length a) (List.length b)) && forallb (fun p => String.eqb (fst p) (snd p)) (combine a b).
 Definition tri_returns_ok (F : facts) : bool := strs_eqb (f_tri_returns F) ["embedding"%string].
 Definition tri_rows_ret {A : Type} (returns_ok : bool) (g : bool) (alt : list A)
   (N : nat) (lm : list nat) (le : list A) (tri : nat -> A) (dflt : A) : list A :=
